@@ -147,7 +147,7 @@ def run(ctx):
 
     # ---- 4. concretisations and budget
     rng = ctx.rng
-    budget_units = 20000 if not thorough else 420000      # ~ replay steps incl. crash images (25/s/process measured)
+    budget_units = 20000 if not thorough else 150000      # ~ replay steps incl. crash images (25/s/process measured)
     per_hist = 1 if not thorough else 3
     out = []
     for c in cases:
